@@ -163,6 +163,20 @@ func (h *NFSProcedureHandler) handleWrite(body io.Reader, reply *RPCReply, authC
 		return nfsErrorWithWcc(reply, mapError(err)), nil
 	}
 
+	// Enforce the export's MaxFileSize: a write that would grow the file beyond it is refused
+	if maxSize := h.server.handler.policy.Load().MaxFileSize; maxSize > 0 && len(data) > 0 {
+		end := int64(offset) + int64(len(data))
+		if offset > math.MaxInt64 || end < 0 || (end > maxSize && end > preAttrs.Size) {
+			var buf bytes.Buffer
+			xdrEncodeUint32(&buf, NFSERR_FBIG)
+			if err := encodeWccData(&buf, preAttrs, preAttrs); err != nil {
+				return nfsErrorWithWcc(reply, NFSERR_FBIG), nil
+			}
+			reply.Data = buf.Bytes()
+			return reply, nil
+		}
+	}
+
 	n, err := h.server.handler.Write(node, int64(offset), data)
 	if err != nil {
 		if h.server.options.Debug {
